@@ -76,7 +76,10 @@ def _weights(rng: Rng, n, kind):
         for _ in range(max(1, n // 6)):
             w[rng.randrange(n)] = Fraction(1)
         return w
-    return [rng.choice([Fraction(0), Fraction(1, 2), Fraction(1), Fraction(2), rng.dyadic(0, 4, 3)]) for _ in range(n)]
+    w = [rng.choice([Fraction(0), Fraction(1, 2), Fraction(1), Fraction(2), rng.dyadic(0, 4, 3)]) for _ in range(n)]
+    if not any(w):
+        w[rng.randrange(n)] = Fraction(1)
+    return w
 
 
 def _responses(rng: Rng, grids, kind):
@@ -123,6 +126,8 @@ def _case(rng: Rng, d, tier, mode=None):
     for k in range(d):
         nseg, p = _dim(rng, maxnb[k], nice)
         m = rng.randint(max(3, (nseg + p) // 2), max(4, min(3 * (nseg + p), 40 if d == 1 else (14 if d == 2 else 6))))
+        if rng.random() < (0.18 if d == 1 else 0.07):
+            m = rng.choice([2, 2, 3])  # tiny grid in this dimension (under-determined: singular or penalty-driven)
         x = _grid(rng, m, nice)
         wide = rng.random() < 0.25
         dmin, dmax = (x[0] - rng.choice([Fraction(1, 2), 1, 0]), x[-1] + rng.choice([Fraction(1, 4), 2, 0])) if wide else (x[0], x[-1])
@@ -145,10 +150,28 @@ def _case(rng: Rng, d, tier, mode=None):
     return c
 
 
+EXHAUSTIVE = dict(quick=False, thorough=True)
+
+
 def gen_cases(rng: Rng, tier):
     _TIER[0] = tier
     n = dict(quick=136, thorough=1400)[tier]
     plan = [1, 2, 1, 2, 3, 1, 2, 2]
+    if tier == "thorough":
+        # exhaustive small scope: every (degree, order) in 1-D, every pair of degrees 1..3 in 2-D (orders 1..3)
+        for p in range(1, 6):
+            for order in range(1, 4):
+                c = _case(rng, 1, tier)
+                c["dims"][0]["p"], c["dims"][0]["nseg"], c["ord"] = p, rng.randint(1, 6), order
+                yield c
+        for p1 in range(1, 4):
+            for p2 in range(1, 4):
+                for order in range(1, 4):
+                    c = _case(rng, 2, tier)
+                    c["int_opts"] = False
+                    c["dims"][0]["p"], c["dims"][1]["p"], c["ord"] = p1, p2, order
+                    c["dims"][0]["nseg"], c["dims"][1]["nseg"] = rng.randint(1, 3), rng.randint(1, 4)
+                    yield c
     for k in range(n):
         yield _case(rng, plan[k % len(plan)], tier)
 
@@ -492,16 +515,16 @@ def oracle(case, impl):
                 f"trace {hat.sum():.4g} vs {ref['trace']:.4g}; basis sizes {sizes})", causes)
         if hat.min() < -max(tol, 1e-9) or hat.max() > 1 + max(tol, 1e-9):
             bad("leverage_range", f"leverages outside [0,1]: min {hat.min()!r} max {hat.max()!r} (basis sizes {sizes})", causes)
-    else:
-        e = np.abs((y_hat - np.array(ref["y_hat"]))[pos]).max() / ys if pos.any() else 0.0
-        if not e <= 1e-5:
-            bad("yhat_explicit", f"(ill-conditioned/singular, cond {cond:.2g}) y_hat at positive weights differs from the explicit solution by {e:.3g}", causes)
+    # cond >= 1e11 (or singular): the float reference loses cond·eps digits, so the quantitative clauses are left to
+    # the exact model comparison (direct closeness, else backward error with the exact A, b)
+    if not well or not pos.any():
+        return _oracle_predict(case, impl, vs, bad, y_hat, causes)
     # linearity
     lin = impl["lin"]
     a, c = float(F(case["a"])), float(F(case["c"]))
     want = a * y_hat + c * np.array(lin["y2"])
     sc = max(np.abs(want).max(), abs(a) * np.abs(y_hat).max(), 1e-300)
-    ltol = 1e-12 * max(cond, 1e3) if well else 1e-5
+    ltol = 1e-12 * max(cond, 1e3) if well else (min(1e-2, max(1e-5, 1e-14 * cond)) if math.isfinite(cond) and cond < 1e14 else 1e-4)
     e = np.abs((np.array(lin["comb"]) - want)[pos]).max() / sc if pos.any() else 0.0
     if not e <= ltol:
         bad("linear", f"fit(a y1 + c y2) differs from a fit(y1) + c fit(y2) by {e:.3g} (relative)", causes)
@@ -516,11 +539,15 @@ def oracle(case, impl):
     if "poly" in impl:
         yp, fp = np.array(impl["poly"]["y"]), np.array(impl["poly"]["fit"])
         e = np.abs((fp - yp)[pos]).max() / max(np.abs(yp).max(), 1e-300) if pos.any() else 0.0
-        if not e <= (1e-11 * max(cond, 1e3) if well else 1e-4):
+        if not e <= (1e-11 * max(cond, 1e3) if well else max(1e-4, ltol)):
             within = all(case["ord"] <= dd["p"] + 1 for dd in case["dims"])
             bad("polynomial", f"a polynomial of degree {case['ord'] - 1} per coordinate is not reproduced: max error {e:.3g} "
                 f"(degrees {[dd['p'] for dd in case['dims']]}, order {case['ord']}, penalties {[dd['lam'] for dd in case['dims']]})",
                 causes + (["order_within_degree_plus_one"] if within else ["order_exceeds_degree_plus_one"]))
+    return _oracle_predict(case, impl, vs, bad, y_hat, causes)
+
+
+def _oracle_predict(case, impl, vs, bad, y_hat, causes):
     # predict
     if not impl["pred_none_is_yhat"]:
         bad("predict_fit_grid", "predict() does not return y_hat")
